@@ -2,7 +2,7 @@
 from . import stackrun as S
 from . import monitors as M
 
-PLAN = [('misuse', 8, 4), ('healthy', 8, 1), ('noext', 8, 1)]
+PLAN = [('misuse', 8, 4), ('healthy', 8, 1), ('noext', 8, 1), ('sizes', 2, 1)]
 MONITORS = [M.mon_accept_once, M.mon_init_barrier, M.mon_lifecycle, M.mon_accept_current]
 THEOREMS = "C12_lifecycle, C12_windows, C12_next_refused_inert, C12_next_repeats, C12_next_blocks_ready, C12_initerror_refused_inert, C12_routes, Tables.gen_rt_matches"
 CORPUS = ['C12']
